@@ -3,6 +3,8 @@ import JunoModel.C13.Model
 import JunoModel.C13.ModelTm
 import JunoModel.C13.ModelStop
 import JunoModel.C13.ModelSync
+import JunoModel.C13.ModelListen
+import JunoModel.C13.ModelCommit
 /-!
 Line-protocol driver for the C13 model (`lake build c13drv`).
 
@@ -42,6 +44,13 @@ Requests (numbers decimal; `nil` is the nil id):
   xblock <p-entry> <c-entry>*    listen: a fetched block: ProcessSync(proposal, precommits)        → as `in`
   variant fetch-error-resets-actions <0|1>   0 = the code as it is (`listenStep`: the previous actions are executed
                                  again after a failed fetch), 1 = `listenStepReset`                → ok
+  (call structure of `listen`, ModelListen.lean) `boot` sets "the next live call is ProcessStart(0)"; every
+                                 `in` / `xerr` / `xblock` / `xpseudo` is checked against `driverSeqStep` (start exactly
+                                 at boot and after a call that committed, an event of the select otherwise); a call
+                                 `listen` cannot make at that point is answered with the suffix ` !seq`
+  oncommit <found 0|1> <handedOver 0|1> <ack|error|ctx> <ctxEnded 0|1>
+                                 ModelCommit.lean: `commitListener.OnCommit` + `Driver.commit` in that environment
+                                                                → <ok|ctxerr|refused> <deliver 0|1> <step,…|->
   variant timeout-inert <0|1>    which variant of the state machine the model machine is: 0 = the code
                                  as it is (`tmMachineL`: ProcessTimeout runs the rules also for a timeout it
                                  ignores), 1 = with proposed-fixes/C13-ignored-timeout-runs-rules.diff
@@ -161,6 +170,8 @@ structure DS where
   errReset : Bool := false -- sync mode variant: `actions = nil` after a failed fetch
   drv : Drv := {}        -- sync mode: the driver's own `lastQuorum`
   last : List Action := []  -- sync mode: the loop variable `actions` of `listen`
+  needStart : Bool := true  -- `listen`: the next call is the outer loop's `ProcessStart(0)`
+  acts0 : List Action := [] -- what the last live call of the model machine returned
   deriving Inhabited
 
 /-- `Env` of C12's model for the next step: validators from the configuration; `appValue c` is what
@@ -209,7 +220,8 @@ def machStep (replaying : Bool) (s : DS) (i : Input) : DS × String :=
     let acts := r.2
     let effs := effectsOf replaying (acts.filter (fun a => !isSync a))
     let flag := if committed acts then "1" else "0"
-    ({ s with trace := s.trace ++ effs, cur := applyEffects s.cur effs, mach := some m', kAtHeight := k' },
+    ({ s with trace := s.trace ++ effs, cur := applyEffects s.cur effs, mach := some m', kAtHeight := k',
+              acts0 := acts },
       " ".intercalate (flag :: showEffectsFrom s.cur effs) ++ " | " ++ " ".intercalate (acts.map showAction))
 
 def showX (s : DS) (acts : List Action) (xs : List XEffect) (lq : Nat) : String :=
@@ -234,7 +246,7 @@ def listenX (s : DS) (li : LInput) : DS × String :=
       | .pseudo => []
       | _ => r.1.last
     ({ s with trace := s.trace ++ effs, cur := applyEffects s.cur effs, mach := some m', kAtHeight := k',
-              drv := r.1.d, last := r.1.last },
+              drv := r.1.d, last := r.1.last, acts0 := acts },
       showX s acts r.2 r.1.d.lastQuorum)
 
 /-- Sync mode: one entry of `driver.replay` (ModelSync.`replayStepX`; the skip rule is applied by the caller). -/
@@ -251,6 +263,14 @@ def replayX (s : DS) (e : Entry) : DS × String :=
     let acts := (replayStep M m e).2
     ({ s with trace := s.trace ++ effs, cur := applyEffects s.cur effs, mach := some m', kAtHeight := k', drv := r.2.1 },
       showX s acts r.2.2 r.2.1.lastQuorum)
+
+/-- `listen`'s call structure: `r` is the result of a live call for `i` (`none`: an event of the select
+that is not a call with an input of its own — failed fetch, fetched block). The call must be the one
+`listen` makes now (`driverSeqStep`); afterwards the next call is a start iff this one committed. -/
+def seqChecked (s : DS) (i : Option Input) (keep : Bool) (r : DS × String) : DS × String :=
+  if r.2 == "bad-op" then r else
+  let q := driverSeqStep s.needStart (i.getD (Input.timeout 0 0 0)) r.1.acts0
+  ({ r.1 with needStart := if keep then s.needStart else q.2 }, if q.1 then r.2 else r.2 ++ " !seq")
 
 def parseNats (s : String) : Option (List Nat) := (s.splitOn ",").mapM String.toNat?
 
@@ -285,12 +305,33 @@ def step1 (s : DS) (line : String) : DS × String :=
     match me.toNat?, pmul.toNat?, parseNats powers, parseNats tbl with
     | some me, some pmul, some powers, some tbl => ({ s with ecfg := ⟨me, pmul, powers, tbl, true⟩ }, "ok")
     | _, _, _, _ => (s, "bad-op")
-  | ["xpseudo"] => if s.ecfg.sync then listenX s .pseudo else (s, "bad-op")
-  | ["xerr"] => if s.ecfg.sync then listenX s .syncErr else (s, "bad-op")
+  | ["xpseudo"] => if s.ecfg.sync then seqChecked s none true (listenX s .pseudo) else (s, "bad-op")
+  | ["xerr"] => if s.ecfg.sync then seqChecked s none false (listenX s .syncErr) else (s, "bad-op")
   | "xblock" :: toks =>
     match toks.mapM parseEntry? with
-    | some (e :: es) => if s.ecfg.sync then listenX s (.syncBlock ((e :: es).map Entry.toInput)) else (s, "bad-op")
+    | some (e :: es) =>
+      if s.ecfg.sync then seqChecked s none false (listenX s (.syncBlock ((e :: es).map Entry.toInput)))
+      else (s, "bad-op")
     | _ => (s, "bad-op")
+  | ["oncommit", f, ho, pa, ce] =>
+    let b? : String → Option Bool := fun x => if x == "1" then some true else if x == "0" then some false else none
+    let pa? : Option PersistAnswer :=
+      if pa == "ack" then some .ack else if pa == "error" then some .error else if pa == "ctx" then some .ctxDone else none
+    match b? f, b? ho, pa?, b? ce with
+    | some f, some ho, some pa, some ce =>
+      let e : CommitEnv := ⟨f, ho, pa⟩
+      let r := driverCommit e ce 0 0
+      let res := match r.1 with
+        | .ok => "ok"
+        | .ctxErr => "ctxerr"
+        | .refused => "refused"
+      let st := (onCommit e).2.map (fun c => match c with
+        | .handover => "handover"
+        | .acked => "acked"
+        | .hooks => "hooks"
+        | .finalize => "finalize")
+      (s, s!"{res} {if r.2.isEmpty then 0 else 1} {if st.isEmpty then "-" else ",".intercalate st}")
+    | _, _, _, _ => (s, "bad-op")
   | ["variant", "timeout-inert", b] =>
     if b == "1" then ({ s with tInert := true }, "ok")
     else if b == "0" then ({ s with tInert := false }, "ok")
@@ -303,11 +344,11 @@ def step1 (s : DS) (line : String) : DS × String :=
     match h.toNat? with
     | some h =>
       ({ s with mach := some (Juno.C12.Machine.new (mkEnvBase s.ecfg (fun _ => 0)) s.ecfg.me h),
-                kAtHeight := 0, drv := {}, last := [] }, "ok")
+                kAtHeight := 0, drv := {}, last := [], needStart := true, acts0 := [] }, "ok")
     | none => (s, "bad-op")
   | ["in", tok] =>
     match parseInput? tok with
-    | some i => if s.ecfg.sync then listenX s (.msg i) else machStep false s i
+    | some i => seqChecked s (some i) false (if s.ecfg.sync then listenX s (.msg i) else machStep false s i)
     | none => (s, "bad-op")
   | ["rin", tok] =>
     match parseEntry? tok, s.mach with
